@@ -248,6 +248,11 @@ pub proof fn lemma_twf<P: Prefix, T>(t: Seq<Node<P, T>>)
 
 // ---- entries ----
 
+/// [C15] canonical shape: every value-less node other than the root is a true branching node (two children)
+pub open spec fn tcanon<P: Prefix, T>(t: Seq<Node<P, T>>, live: ISet<int>) -> bool {
+    forall|n: int| #![trigger live.contains(n)] live.contains(n) && n != 0 && t[n].value.is_none() ==> t[n].left.is_some() && t[n].right.is_some()
+}
+
 /// node `i` is a stored entry
 pub open spec fn stored<P: Prefix, T>(t: Seq<Node<P, T>>, live: ISet<int>, i: int) -> bool {
     live.contains(i) && t[i].value.is_some()
